@@ -39,9 +39,13 @@ import (
 // ------------------------------------------------------------------ ignore
 
 var ignoreLines = []string{"foo", "dir/", "/dir/sub", "*.txt", "dir/*.go", "**/x.c", "a?c", "# comment", "", "  spaced  ",
-	"file.txt", "secret", "e2", "z/**", "dir/**/d.go", "*", "README", "/a.txt", "b", "dir/f*", "\tdir/g\r", "x**y", "?", "e2/in?er", "#", "big/**"}
+	"file.txt", "secret", "e2", "z/**", "dir/**/d.go", "*", "README", "/a.txt", "b", "dir/f*", "\tdir/g\r", "x**y", "?", "e2/in?er", "#", "big/**",
+	// brace alternatives, escapes, character classes (gobwas/glob syntax beyond the wildcards)
+	"{vendor,third_party}/**", "\\[generated\\]/**", "dir/{c,f}.txt", "[ab].txt", "dir/[!c]*", "*.{go,c}", "z/\\*", "{e,e2}", "{foo,secret}",
+	"[a-c]*", "\\#notcomment", "dir/sub/[cd].go", "{README,dir/g}", "x{a,b}{c,d}", "{a\\,b,abc}", "[!a-c].txt", "file[.]txt", "{file,x}.txt"}
 var pathPool = []string{"a.txt", "b.txt", "dir/c.txt", "dir/sub/d.go", "e", "dir/f.txt", "z/y/x.c", "e2/inner", "README", "dir/g",
-	"foo", "foo/bar", "foobar", "secret/x", "secret2", "abc", "a/c", "file.txt", "file.txt.bak", "spaced", "big/one", "x.c", "b", "bb", "xy", "x/z/y", "README.md", ".sourcegraph/ignore"}
+	"foo", "foo/bar", "foobar", "secret/x", "secret2", "abc", "a/c", "file.txt", "file.txt.bak", "spaced", "big/one", "x.c", "b", "bb", "xy", "x/z/y", "README.md", ".sourcegraph/ignore",
+	"vendor/lib/x.go", "third_party/y.c", "[generated]/api.go", "generated/api.go", "x.go", "d/x.c", "c.txt", "d.txt", "z/*", "z/q", "#notcomment", "xbd", "xab", "a,b", "filextxt"}
 
 func genIgnoreFile(r *gen.Rand) []byte {
 	var b bytes.Buffer
@@ -375,76 +379,156 @@ func docCode(content []byte) string {
 
 // ------------------------------------------------------------------ docs: indexCatfileBlobs over a generated stream
 
+// docsRun is one run of the real indexCatfileBlobs into a real index.Builder, split into its two stages so that
+// several runs can be interleaved in one process: the documents handed to a Builder must stay intact until that
+// Builder's Finish, whatever other runs do in between (content buffers must not be shared across runs).
+type docsRun struct {
+	sizeMax  int
+	stream   []byte
+	keys     []gitindex.VerifKey
+	branches map[gitindex.VerifKey][]string
+	allow    []byte
+	want     []string // Go oracle: the document each key must produce
+	dir      string
+	bo       index.Options
+	builder  *index.Builder
+	cr       *chunkReader
+	bufSize  int
+	err      error
+	nrec     int
+}
+
+// rich: every record is a text blob that is indexed with its content (so that any overwriting of a pending
+// document's bytes is visible)
+func newDocsRun(r *gen.Rand, malformed, rich bool, tmp string) *docsRun {
+	d := &docsRun{sizeMax: gen.Pick(r, []int{4, 10, 25, 60}), branches: map[gitindex.VerifKey][]string{}}
+	d.nrec = r.Range(1, 6)
+	if rich {
+		d.sizeMax = 60
+	}
+	for k := 0; k < d.nrec; k++ {
+		rc := genRec(r, false, 30)
+		if rich {
+			c := make([]byte, r.Range(8, 30))
+			for i := range c {
+				c[i] = byte('a' + r.Intn(26))
+			}
+			rc = rec{kind: "blob", content: c}
+		}
+		if malformed && k == d.nrec-1 {
+			rc = rec{kind: "bad-truncated", raw: []byte(fmt.Sprintf("%040x blob 9\nabc", k))}
+		}
+		if rc.kind == "blob" && len(rc.content) > 0 && !rich && r.Chance(1, 5) {
+			rc.content[r.Intn(len(rc.content))] = 0 // binary
+		}
+		if rc.kind == "blob" {
+			rc.raw = []byte(fmt.Sprintf("%040x blob %d\n%s\n", k, len(rc.content), rc.content))
+		}
+		d.stream = append(d.stream, rc.raw...)
+		name := fmt.Sprintf("f%02d", k)
+		a := byte('0')
+		if r.Chance(1, 3) {
+			name = "big/" + name
+			a = '1'
+		}
+		d.allow = append(d.allow, a)
+		key := gitindex.VerifKey{Path: name, ID: fmt.Sprintf("%040x", k+1)}
+		d.keys = append(d.keys, key)
+		d.branches[key] = []string{"main"}
+		switch rc.kind {
+		case "bad-truncated":
+			d.want = append(d.want, "*") // a malformed stream: only the model says what happens
+		case "missing":
+			d.want = append(d.want, "missing:-")
+		case "excluded":
+			d.want = append(d.want, "large:-")
+		default:
+			d.want = append(d.want, expectedCode(rc.content, d.sizeMax, a == '1', false, "cat-file"))
+		}
+	}
+	var err error
+	d.dir, err = os.MkdirTemp(tmp, "docs")
+	if err != nil {
+		panic(err)
+	}
+	d.bo = index.Options{IndexDir: d.dir, RepositoryDescription: zoekt.Repository{Name: "r", Branches: []zoekt.RepositoryBranch{{Name: "main", Version: "v"}}},
+		DisableCTags: true, SizeMax: d.sizeMax, LargeFiles: []string{"big/**"}}
+	d.bo.SetDefaults()
+	d.builder, err = index.NewBuilder(d.bo)
+	if err != nil {
+		panic(err)
+	}
+	d.cr = &chunkReader{data: append([]byte(nil), d.stream...), r: r.Fork(), max: gen.Pick(r, []int{0, 1, 5})}
+	d.bufSize = gen.Pick(r, []int{16, 64, 4096})
+	return d
+}
+
+// catfileStage: the real indexCatfileBlobs (cat-file stream -> slab -> Builder.Add); the Builder is not finished yet
+func (d *docsRun) catfileStage() {
+	v := gitindex.VerifNewCatfile(d.cr, d.bufSize, true)
+	d.err = gitindex.VerifIndexCatfileBlobs(v, d.keys, d.branches, gitindex.Options{BuildOptions: d.bo}, d.builder)
+}
+
+// finishStage: Builder.Finish, read the shard back, emit the case
+func (d *docsRun) finishStage(w *gen.Writer, schedule string) {
+	impl, verdict := "error", "ok"
+	if d.err == nil {
+		if ferr := d.builder.Finish(); ferr != nil {
+			panic(ferr)
+		}
+		docs := readIndexDir(d.dir)
+		byName := map[string]string{}
+		for _, doc := range docs {
+			byName[doc.Name] = docCode(doc.Content)
+		}
+		var outs []string
+		for i, k := range d.keys {
+			outs = append(outs, byName[k.Path])
+			if d.want[i] != "*" && byName[k.Path] != d.want[i] && verdict == "ok" {
+				verdict = fmt.Sprintf("schedule %s: document %s is %s, its blob gives %s", schedule, k.Path, byName[k.Path], d.want[i])
+			}
+		}
+		impl = joinOr(outs, ",")
+	} else {
+		d.builder.Finish()
+	}
+	os.RemoveAll(d.dir)
+	class := "docs:" + schedule + ":ok"
+	if d.err != nil {
+		class = "docs:" + schedule + ":error"
+	}
+	w.Emit(gen.Case{In: fmt.Sprintf("docs %d %s %s", d.sizeMax, gen.Hex(d.stream), d.allow), Impl: impl, Go: verdict, Key: "docs-content:" + schedule,
+		Class: class, Nontrivial: d.nrec >= 2 && d.err == nil})
+}
+
+// docsCases runs indexCatfileBlobs + Builder alone and in pairs whose stages are interleaved in every order.
 func docsCases(w *gen.Writer, r *gen.Rand, n int, tmp string) {
 	for i := 0; i < n; i++ {
-		sizeMax := gen.Pick(r, []int{4, 10, 25})
-		nrec := r.Range(1, 6)
-		var stream []byte
-		var keys []gitindex.VerifKey
-		branches := map[gitindex.VerifKey][]string{}
-		var allow []byte
-		malformed := i%9 == 8
-		for k := 0; k < nrec; k++ {
-			rc := genRec(r, malformed && k == nrec-1 && false, 30)
-			if malformed && k == nrec-1 {
-				rc = rec{kind: "bad-truncated", raw: []byte(fmt.Sprintf("%040x blob 9\nabc", k))}
-			}
-			if rc.kind == "blob" && len(rc.content) > 0 && r.Chance(1, 5) {
-				rc.content[r.Intn(len(rc.content))] = 0 // binary
-			}
-			if rc.kind == "blob" {
-				rc.raw = []byte(fmt.Sprintf("%040x blob %d\n%s\n", k, len(rc.content), rc.content))
-			}
-			stream = append(stream, rc.raw...)
-			name := fmt.Sprintf("f%02d", k)
-			a := byte('0')
-			if r.Chance(1, 3) {
-				name = "big/" + name
-				a = '1'
-			}
-			allow = append(allow, a)
-			key := gitindex.VerifKey{Path: name, ID: fmt.Sprintf("%040x", k+1)}
-			keys = append(keys, key)
-			branches[key] = []string{"main"}
+		rich := i%4 == 1 || i%4 == 2 || i%8 == 3
+		a := newDocsRun(r, i%9 == 8 && !rich, rich, tmp)
+		switch i % 4 {
+		case 0:
+			a.catfileStage()
+			a.finishStage(w, "solo")
+		case 1: // B runs entirely between A's cat-file stage and A's Finish
+			b := newDocsRun(r, false, rich, tmp)
+			a.catfileStage()
+			b.catfileStage()
+			b.finishStage(w, "nested-inner")
+			a.finishStage(w, "nested-outer")
+		case 2:
+			b := newDocsRun(r, false, rich, tmp)
+			a.catfileStage()
+			b.catfileStage()
+			a.finishStage(w, "crossed-first")
+			b.finishStage(w, "crossed-second")
+		case 3:
+			b := newDocsRun(r, false, rich, tmp)
+			a.catfileStage()
+			a.finishStage(w, "sequential-first")
+			b.catfileStage()
+			b.finishStage(w, "sequential-second")
 		}
-		dir, err := os.MkdirTemp(tmp, "docs")
-		if err != nil {
-			panic(err)
-		}
-		bo := index.Options{IndexDir: dir, RepositoryDescription: zoekt.Repository{Name: "r", Branches: []zoekt.RepositoryBranch{{Name: "main", Version: "v"}}},
-			DisableCTags: true, SizeMax: sizeMax, LargeFiles: []string{"big/**"}}
-		bo.SetDefaults()
-		builder, err := index.NewBuilder(bo)
-		if err != nil {
-			panic(err)
-		}
-		cr := &chunkReader{data: append([]byte(nil), stream...), r: r.Fork(), max: gen.Pick(r, []int{0, 1, 5})}
-		v := gitindex.VerifNewCatfile(cr, gen.Pick(r, []int{16, 64, 4096}), true)
-		err = gitindex.VerifIndexCatfileBlobs(v, keys, branches, gitindex.Options{BuildOptions: bo}, builder)
-		impl := "error"
-		if err == nil {
-			if ferr := builder.Finish(); ferr != nil {
-				panic(ferr)
-			}
-			docs := readIndexDir(dir)
-			byName := map[string]string{}
-			for _, d := range docs {
-				byName[d.Name] = docCode(d.Content)
-			}
-			var outs []string
-			for _, k := range keys {
-				outs = append(outs, byName[k.Path])
-			}
-			impl = joinOr(outs, ",")
-		} else {
-			builder.Finish()
-		}
-		os.RemoveAll(dir)
-		class := "docs:ok"
-		if err != nil {
-			class = "docs:error"
-		}
-		w.Emit(gen.Case{In: fmt.Sprintf("docs %d %s %s", sizeMax, gen.Hex(stream), allow), Impl: impl, Class: class, Nontrivial: nrec >= 2 && err == nil})
 	}
 }
 
@@ -464,6 +548,33 @@ type repoSpec struct {
 	Repack   bool                           `json:"repack,omitempty"`
 }
 
+// scriptedRepos: one repository per ignore file of the pool, on two branches, with every path that file is about
+// present (and some it must not touch) — so each kind of ignore line is exercised end to end on every run.
+func scriptedRepos() []repoSpec {
+	base := genRepo(gen.NewRand(1))
+	var out []repoSpec
+	for _, ig := range []int{12, 13, 15} {
+		sp := repoSpec{Contents: base.Contents, Branches: []string{"main", "dev"}, Indexed: []string{"HEAD", "main", "dev"},
+			SizeMax: base.SizeMax, Missing: -1, Trees: map[string]map[string]fileSpec{}}
+		for bi, b := range sp.Branches {
+			t := map[string]fileSpec{".sourcegraph/ignore": {Content: ig, Mode: "100644"}}
+			for i, p := range []string{"a.txt", "secret/x.txt", "secret2", "dir/sub/d.go", "scratch.tmp", "dir/s.tmp", "dir/f.txt", "dir/c.txt", "dir/g",
+				"z/y/x.c", "README", "vendor/lib.go", "third_party/dep/x.c", "[generated]/api.go", "generated/api.go", "top.c", "top.h", "src/main.c"} {
+				if bi == 1 && i%3 == 2 {
+					continue // the second branch lacks some of them
+				}
+				t[p] = fileSpec{Content: (i + bi) % 4, Mode: "100644"}
+			}
+			if bi == 1 && ig == 15 {
+				t[".sourcegraph/ignore"] = fileSpec{Content: 12, Mode: "100644"} // branches may have different ignore files
+			}
+			sp.Trees[b] = t
+		}
+		out = append(out, sp)
+	}
+	return out
+}
+
 func genRepo(r *gen.Rand) repoSpec {
 	sp := repoSpec{Missing: -1, SizeMax: gen.Pick(r, []int{30, 60, 200})}
 	// contents: text, identical reuse, large, binary, tiny, empty, ignore files
@@ -480,9 +591,11 @@ func genRepo(r *gen.Rand) repoSpec {
 		[]byte("# ignore\nsecret\n/dir/sub\n*.tmp\n"), // 12: ignore file A
 		[]byte("dir/f*\nz/**\nREADME\n"),              // 13: ignore file B
 		[]byte("../target"),                           // 14: symlink target
+		[]byte("{vendor,third_party}/**\n\\[generated\\]/**\ndir/{c,f}.txt\n*.[ch]\n"), // 15: ignore file C: braces, escapes, classes
 	)
 	paths := []string{"a.txt", "b.txt", "dir/c.txt", "dir/sub/d.go", "e", "dir/f.txt", "z/y/x.c", "e2/inner", "README", "dir/g",
-		"secret/x.txt", "big/one", "big/two.bin", "scratch.tmp", "dir/s.tmp", "secret2"}
+		"secret/x.txt", "big/one", "big/two.bin", "scratch.tmp", "dir/s.tmp", "secret2",
+		"vendor/lib.go", "third_party/dep/x.c", "[generated]/api.go", "top.c", "src/main.c"}
 	nb := r.Range(1, 3)
 	sp.Branches = []string{"main", "dev", "rel"}[:nb]
 	sp.Trees = map[string]map[string]fileSpec{}
@@ -512,8 +625,11 @@ func genRepo(r *gen.Rand) repoSpec {
 			t[p] = fileSpec{Content: c, Mode: mode}
 		}
 		if r.Chance(1, 2) {
-			t[".sourcegraph/ignore"] = fileSpec{Content: 12 + r.Intn(2), Mode: "100644"}
+			t[".sourcegraph/ignore"] = fileSpec{Content: gen.Pick(r, []int{12, 13, 15, 15}), Mode: "100644"}
 			if r.Chance(2, 3) { // paths the ignore files are about
+				for _, p := range []string{"vendor/lib.go", "third_party/dep/x.c", "[generated]/api.go", "top.c", "src/main.c", "dir/c.txt"} {
+					t[p] = fileSpec{Content: r.Intn(4), Mode: "100644"}
+				}
 				t["dir/sub/d.go"] = fileSpec{Content: r.Intn(4), Mode: "100644"}
 				t["dir/f.txt"] = fileSpec{Content: r.Intn(4), Mode: "100644"}
 			}
@@ -535,7 +651,8 @@ func genRepo(r *gen.Rand) repoSpec {
 	return sp
 }
 
-// glob: an independent matcher for the ignore patterns the generator uses (`?`, `*`, `**`, literals; '/' separator)
+// glob: an independent matcher for the ignore patterns the generator uses: literals, `\\x` escapes, `?`, `*`, `**`
+// ('/' separator), character classes `[…]` / `[!…]` with ranges, brace alternatives of literal text.
 func glob(pat, s string) bool {
 	if pat == "" {
 		return s == ""
@@ -561,6 +678,71 @@ func glob(pat, s string) bool {
 		return false
 	case '?':
 		return len(s) > 0 && s[0] != '/' && glob(pat[1:], s[1:])
+	case '\\':
+		if len(pat) == 1 {
+			return s == ""
+		}
+		return len(s) > 0 && s[0] == pat[1] && glob(pat[2:], s[1:])
+	case '[':
+		i, neg := 1, false
+		if i < len(pat) && pat[i] == '!' {
+			neg, i = true, i+1
+		}
+		in := false
+		for i < len(pat) && pat[i] != ']' {
+			lo := pat[i]
+			if lo == '\\' && i+1 < len(pat) {
+				i++
+				lo = pat[i]
+			}
+			hi := lo
+			if i+2 < len(pat) && pat[i+1] == '-' && pat[i+2] != ']' {
+				hi = pat[i+2]
+				i += 2
+			}
+			if len(s) > 0 && lo <= s[0] && s[0] <= hi {
+				in = true
+			}
+			i++
+		}
+		if i >= len(pat) {
+			panic("oracle glob: unterminated class in " + pat)
+		}
+		return len(s) > 0 && in != neg && glob(pat[i+1:], s[1:])
+	case '{':
+		end := -1
+		for i := 1; i < len(pat); i++ {
+			if pat[i] == '\\' {
+				i++
+			} else if pat[i] == '}' {
+				end = i
+				break
+			}
+		}
+		if end < 0 {
+			panic("oracle glob: unterminated brace in " + pat)
+		}
+		var alts []string
+		cur := ""
+		for i := 1; i < end; i++ {
+			switch {
+			case pat[i] == '\\':
+				cur += pat[i : i+2]
+				i++
+			case pat[i] == ',':
+				alts = append(alts, cur)
+				cur = ""
+			default:
+				cur += string(pat[i])
+			}
+		}
+		alts = append(alts, cur)
+		for _, a := range alts {
+			if glob(a+pat[end+1:], s) {
+				return true
+			}
+		}
+		return false
 	}
 	return len(s) > 0 && s[0] == pat[0] && glob(pat[1:], s[1:])
 }
@@ -909,9 +1091,13 @@ func main() {
 	ignoreCases(w, r.Fork(), f.N(150, 5000))
 	cfCases(w, r.Fork(), f.N(400, 40000))
 	slabCases(w, r.Fork(), f.N(200, 10000))
-	docsCases(w, r.Fork(), f.N(12, 300), tmp)
+	docsCases(w, r.Fork(), f.N(24, 400), tmp)
+	for _, sp := range scriptedRepos() {
+		runRepo(w, sp, tmp)
+		w.Count("e2e:scripted", 1)
+	}
 	rr := r.Fork()
-	for i := 0; i < f.N(6, 120); i++ {
+	for i := 0; i < f.N(5, 120); i++ {
 		runRepo(w, genRepo(rr.Fork()), tmp)
 	}
 }
